@@ -494,7 +494,7 @@ u.extract(M, 'fn cast_array_to_array', rewrites=[DYN, RT_ASSERT, RT_ASSERT_EQ, M
                 log_extends(l1, builder.log@),
                 only_writes_within(builder.log@, l1.len() as int, loc_base(result_mem), loc_off(result_mem), loc_off(result_mem) + tsize(*cast_to.0)),
                 builder.slots == slots1,
-"""}, inserts=[('@after_stmt:let result_mem = memory.unwrap_or_alloca(builder, cast_to)', 'after', """
+"""}, inserts=[('@after_stmt:let result_mem =', 'after', """
         let ghost l1 = builder.log@; let ghost slots1 = builder.slots;
         proof { lemma_log_refl(l1, loc_base(result_mem), loc_off(result_mem), loc_off(result_mem) + tsize(*cast_to.0)); }
 """), ('@loop_start:0', 'after', """
@@ -604,7 +604,7 @@ u.extract(M, 'fn cast_struct_to_struct', rewrites=[DYN, RT_ASSERT, RT_ASSERT_EQ,
                 only_writes_within(builder.log@, l1.len() as int, loc_base(result_mem), loc_off(result_mem), loc_off(result_mem) + tsize(*cast_to.0)),
                 builder.slots == slots1,
             decreases it_mi@.len() - mi
-"""}, inserts=[('@after_stmt:let result_mem = memory.unwrap_or_alloca(builder, cast_to)', 'after', """
+"""}, inserts=[('@after_stmt:let result_mem =', 'after', """
         let ghost l1 = builder.log@; let ghost slots1 = builder.slots;
         proof { lemma_log_refl(l1, loc_base(result_mem), loc_off(result_mem), loc_off(result_mem) + tsize(*cast_to.0)); }
 """), ('@loop_start:0', 'after', """
